@@ -81,6 +81,7 @@ func ConflatedContext(contexts ...context.Context) (ctx context.Context, cancel 
 	wg.Done() // decrement our first increment
 
 	go func() {
+		verifAt("ctx.conflated.wgwait", nil, 0)
 		wg.Wait()
 		cancel() // combined cancel
 	}()
@@ -100,6 +101,7 @@ func ConflatedContext(contexts ...context.Context) (ctx context.Context, cancel 
 func ChainAfterFunc(ctx context.Context, other context.Context, f func()) {
 	stop := context.AfterFunc(other, f)
 	context.AfterFunc(ctx, func() {
+		verifAt("ctx.chain.stop", nil, 0)
 		if stop() {
 			// Stopped f from being run. Because this closure will only trigger
 			// on ctx cancel, and we otherwise never stop either hooks, this is
@@ -164,6 +166,7 @@ func CombineContext(ctx context.Context, others ...context.Context) context.Cont
 type stopCallbackSlice []func() bool
 
 func (s stopCallbackSlice) Stop() {
+	verifAt("ctx.combine.stop", nil, len(s))
 	for _, stop := range s {
 		stop()
 	}
